@@ -58,7 +58,23 @@ Section Rebase.
     | _, _ => Fail InvalidRebaseLeaf
     end.
 
-  (* ---------- intra_rebase (as repaired by the F2 fix) ---------- *)
+  (* ---------- tree_hash ---------- *)
+  Fixpoint tree_hash (t : tree) : prog digest :=
+    match t with
+    | Leaf i v =>
+        GetMemo i (fun e => if negb (e =? 0) then Ret e
+                            else SetMemo i (etroot ek v) (Ret (etroot ek v)))
+    | Packed i vs =>
+        GetMemo i (fun e => if negb (e =? 0) then Ret e
+                            else if pf <? lenN vs then Crash PSliceIndex
+                            else SetMemo i (chunk_of ek vs) (Ret (chunk_of ek vs)))
+    | Zero _ d => Ret (zh H d)
+    | Node i l r =>
+        GetMemo i (fun e => if negb (e =? 0) then Ret e
+                            else Par (tree_hash l) (tree_hash r)
+                                     (fun a b => SetMemo i (H a b) (Ret (H a b))))
+    end.
+  (* ---------- intra_rebase (as repaired by the F2 and F6 fixes) ---------- *)
   Inductive iaction := INoop | IReplace (t : tree).
   Definition known := list ((nat * digest) * tree).
   Fixpoint known_get (k : known) (d : nat) (h : digest) : option tree :=
@@ -76,7 +92,8 @@ Section Rebase.
         match depth with
         | O => Fail IntraRebaseZeroDepth
         | S nd =>
-            GetMemo i (fun h =>
+            GetMemo i (fun h0 =>
+            h <- (if h0 =? 0 then tree_hash orig else Ret h0) ;;
             if h =? 0 then Fail IntraRebaseZeroHash else
             let found := known_get k depth h in
             match (match found with
@@ -103,22 +120,6 @@ Section Rebase.
         end
     end.
 
-  (* ---------- tree_hash ---------- *)
-  Fixpoint tree_hash (t : tree) : prog digest :=
-    match t with
-    | Leaf i v =>
-        GetMemo i (fun e => if negb (e =? 0) then Ret e
-                            else SetMemo i (etroot ek v) (Ret (etroot ek v)))
-    | Packed i vs =>
-        GetMemo i (fun e => if negb (e =? 0) then Ret e
-                            else if pf <? lenN vs then Crash PSliceIndex
-                            else SetMemo i (chunk_of ek vs) (Ret (chunk_of ek vs)))
-    | Zero _ d => Ret (zh H d)
-    | Node i l r =>
-        GetMemo i (fun e => if negb (e =? 0) then Ret e
-                            else Par (tree_hash l) (tree_hash r)
-                                     (fun a b => SetMemo i (H a b) (Ret (H a b))))
-    end.
 End Rebase.
 Arguments action : clear implicits.
 Arguments iaction : clear implicits.
